@@ -5,7 +5,8 @@ From Coq Require Import List Arith ZArith Reals Lra Lia Bool.
 From TLV Require Import Base.Shape Base.PyList Base.Tensor Base.BigSum Base.Ops Model.Transforms
   Proofs.TransformsProofs Proofs.TransformsProofsR Proofs.TransformsProofsTT Proofs.TransformsProofsTucker
   Proofs.TransformsProofsPf2 Proofs.TransformsProofsR2 Proofs.TransformsProofsFlip Proofs.TransformsProofsApi Proofs.TransformsProofsPermList
-  Proofs.TransformsProofsTTM Proofs.TransformsProofsOrtho Proofs.TransformsProofsNegMode Proofs.TransformsProofsNegMode2 Proofs.TransformsProofsAlign Proofs.TransformsProofsLink.
+  Proofs.TransformsProofsTTM Proofs.TransformsProofsOrtho Proofs.TransformsProofsNegMode Proofs.TransformsProofsNegMode2 Proofs.TransformsProofsAlign Proofs.TransformsProofsLink
+  Model.TransformsApi Model.TransformsHeap Proofs.TransformsProofsValid Proofs.TransformsProofsHeap.
 From TLV Require Model.Factorized Proofs.FactorizedProofs Proofs.FactorizedProofs3 Proofs.FactorizedProofs5 Proofs.FactorizedProofs9.
 Import ListNotations.
 
@@ -638,3 +639,142 @@ Proof.
     (split; [vm_compute; reflexivity | split; [|vm_compute; reflexivity]]);
     intros t Hlt; cbn in Hlt; destruct (Ht t Hlt) as [-> | ->]; vm_compute; reflexivity.
 Qed.
+
+(* ================================================================== round 5
+   (a) the validating constructors behind the Tucker / PARAFAC2 entry points (Model/TransformsApi.v): the answer of a transform
+       applied to a valid operand is never refused, and the object caches the shape / rank of what it holds *)
+Theorem C04_tucker_mode_dot_result_valid : forall (F : Type) (Op : fops F) core (fs : list (mat F)) x (mode : Z) kd core' fs',
+  tucker_mode_dot_z Op core fs x mode kd = Ok (core', fs') ->
+  (forall M, x = OpMat M -> M <> []) ->
+  exists o, tucker_mode_dot_api Op core fs x mode kd = Ok o /\
+            tko_core o = core' /\ tko_fs o = fs' /\ tko_shape o = cp_shape fs' /\ tko_rank o = map (fun A => ncols A) fs'.
+Proof. exact @tucker_mode_dot_api_accepts. Qed.
+Print Assumptions C04_tucker_mode_dot_result_valid.
+
+Theorem C04_tucker_normalize_result_valid : forall (F : Type) (Op : fops F) tape core (fs : list (mat F)),
+  tucker_okb core fs = true -> Forall2 (fun sc n => length sc = n) tape (shape core) ->
+  exists o, tucker_normalize_api Op tape core fs = Ok o /\
+            (tko_core o, tko_fs o) = tucker_normalize Op tape core fs /\ tko_shape o = cp_shape fs /\ tko_rank o = shape core.
+Proof. exact @tucker_normalize_api_accepts. Qed.
+Print Assumptions C04_tucker_normalize_result_valid.
+
+(* the orthonormality test of the Parafac2Tensor constructor cannot tell L P from P when L has orthonormal columns -- for ANY
+   entry test `close` (exact, 1e-5, ...): the two Gram matrices are equal in every commutative ring *)
+Theorem C04_projection_test_invariant : forall (F : Type) (Op : fops F) (close : F -> F -> bool),
+  ring_theory (f0 Op) (f1 Op) (fadd Op) (fmul Op) (fsub Op) (fopp Op) (@eq F) ->
+  forall rank (Lm P : mat F), Lm <> [] -> ortho Op (length P) Lm -> matb rank P = true ->
+  proj_okb Op close rank (matmul Op Lm P) = proj_okb Op close rank P.
+Proof. exact @proj_okb_matmul. Qed.
+Print Assumptions C04_projection_test_invariant.
+
+Theorem C04_svd_decompress_result_valid : forall (F : Type) (Op : fops F) (close : F -> F -> bool),
+  ring_theory (f0 Op) (f1 Op) (fadd Op) (fmul Op) (fsub Op) (fopp Op) (@eq F) ->
+  forall (x : pf2_operand) Ls,
+  pf2_validb Op close (pf2_raw_w x) (pf2_fs x) (pf2_ps x) = true ->
+  length (pf2_ps x) <= length Ls ->
+  (forall i Lm, i < length (pf2_ps x) -> nth i Ls None = Some Lm -> Lm <> [] /\ ortho Op (length (nth i (pf2_ps x) [])) Lm) ->
+  exists o, svd_decompress_api Op close x Ls = Ok o /\
+            pfo_w o = weights_or_ones Op (pf2_raw_w x) (pf2_fs x) /\ pfo_fs o = pf2_fs x /\
+            pfo_ps o = decompress_projs Op (pf2_ps x) Ls /\
+            pfo_shape o = pf2_shape (pf2_fs x) (decompress_projs Op (pf2_ps x) Ls).
+Proof. exact @svd_decompress_api_accepts. Qed.
+Print Assumptions C04_svd_decompress_result_valid.
+
+Theorem C04_parafac2_normalise_result_valid : forall (F : Type) (Op : fops F) (close : F -> F -> bool) tape (x : pf2_operand),
+  pf2_validb Op close (pf2_raw_w x) (pf2_fs x) (pf2_ps x) = true ->
+  length tape = 3 -> Forall (fun sc => length sc = cp_rank (pf2_fs x)) tape ->
+  exists o, parafac2_normalise_api Op close tape x = Ok o /\
+            (pfo_w o, pfo_fs o) = cp_normalize Op tape (weights_or_ones Op (pf2_raw_w x) (pf2_fs x)) (pf2_fs x) /\
+            pfo_ps o = pf2_ps x /\ pfo_shape o = pf2_shape (pf2_fs x) (pf2_ps x).
+Proof. exact @parafac2_normalise_api_accepts. Qed.
+Print Assumptions C04_parafac2_normalise_result_valid.
+
+(* THIN: the QR contract (Q has `rank` orthonormal columns, R has `rank` columns) is a hypothesis *)
+Theorem C04_from_cptensor_result_valid : forall (F : Type) (Op : fops F) (close : F -> F -> bool) Qm Rm (c : cp_operand) A B C ok,
+  operand_fs c = [A; B; C] -> matb (ncols A) A = true -> matb (ncols A) C = true -> matb (ncols A) Rm = true ->
+  proj_okb Op close (ncols A) Qm = true ->
+  (forall w, cp_raw_w c = Some w -> length w = ncols A) ->
+  exists o, from_cp_api Op close Qm Rm (FromCp c) ok = Ok o /\ pfo_w o = weights_or_ones Op (cp_raw_w c) [A; Rm; C] /\
+            pfo_fs o = [A; Rm; C] /\ pfo_ps o = repeat Qm (length A) /\ pfo_shape o = repeat [length Qm; length C] (length A).
+Proof. exact @from_cp_api_accepts. Qed.
+Print Assumptions C04_from_cptensor_result_valid.
+
+(* (b) the copy flag of cp_mode_dot on a heap (Model/TransformsHeap.v).
+   copy=True: whatever the aliasing among the caller's arrays, nothing the caller holds is touched (the old heap is a prefix of
+   the new one), the result is a fresh object owning fresh arrays only, and it reads as the pure model's answer *)
+Theorem C04_cp_mode_dot_copy_fresh : forall (F : Type) (Op : fops F) (h : heap) r x mode kd h' o,
+  wf_ref h r -> cp_mode_dot_h Op h r true x mode kd = Ok (h', o) ->
+  extends h h' /\ length (h_obj h) <= o /\ (forall l, In l (owned h' o) -> length (h_arr h) <= l) /\
+  exists w' fs', cp_mode_dot Op (operand_w Op (deref h r)) (operand_fs (deref h r)) x mode kd = Ok (w', fs') /\
+     cpo_fs (read_obj h' o) = fs' /\ cpo_shape (read_obj h' o) = cp_shape fs' /\
+     cpo_w (read_obj h' o) = match ref_w h r with Some _ => w' | None => ones Op (cp_rank fs') end.
+Proof. exact @cp_mode_dot_h_copy_fresh. Qed.
+Print Assumptions C04_cp_mode_dot_copy_fresh.
+
+(* copy=False, whatever the aliasing: an array the caller holds keeps its value or is owned by the result *)
+Theorem C04_cp_mode_dot_inplace_no_silent_clobber : forall (F : Type) (Op : fops F) (h : heap) r x mode kd h' o,
+  wf_ref h r -> cp_mode_dot_h Op h r false x mode kd = Ok (h', o) -> no_silent_clobber h h' o.
+Proof. exact @cp_mode_dot_h_no_silent_clobber. Qed.
+Print Assumptions C04_cp_mode_dot_inplace_no_silent_clobber.
+
+(* copy=False: GENUINE DEFECT in tensorly (known finding cp_mode_dot_inplace_alias).  `factors[mode] *= factor` updates an
+   array in place; when the factor list names that array under another remaining mode as well (symmetric tensors: [A, A, B]),
+   the other mode changes too and the result is not the mode product.  Witness: entry [0,0] is 509 instead of 49. *)
+Theorem C04_cp_mode_dot_inplace_alias_refuted :
+  exists h' o w' fs',
+    cp_mode_dot_h Zops alias_heap (RTuple (Some 0) 0) false (OpVec [1; 2]%Z) 2 false = Ok (h', o) /\
+    cp_mode_dot Zops (operand_w Zops (deref alias_heap (RTuple (Some 0) 0))) (operand_fs (deref alias_heap (RTuple (Some 0) 0)))
+                (OpVec [1; 2]%Z) 2 false = Ok (w', fs') /\
+    cp_entry Zops w' fs' [0; 0] = 49%Z /\
+    cp_entry Zops (cpo_w (read_obj h' o)) (cpo_fs (read_obj h' o)) [0; 0] = 509%Z /\
+    wf_ref alias_heap (RTuple (Some 0) 0).
+Proof. exact cp_mode_dot_h_inplace_alias_witness. Qed.
+Print Assumptions C04_cp_mode_dot_inplace_alias_refuted.
+
+(* ... and the restricted statement that does hold: the result reads as the pure model's answer provided the array that absorbs
+   a contracted vector in place is named by ONE remaining entry of the factor list only, and is not the weights array *)
+Theorem C04_cp_mode_dot_inplace_value_partial : forall (F : Type) (Op : fops F) (h : heap) r x mode kd h' o,
+  wf_ref h r ->
+  (forall l, ref_w h r = Some l -> ~ In l (lst h (ref_fs h r))) ->
+  (is_contract x kd = true -> forall j, j < length (remove_nth mode (lst h (ref_fs h r))) -> j <> pred mode ->
+      nth j (remove_nth mode (lst h (ref_fs h r))) 0 <> nth (pred mode) (remove_nth mode (lst h (ref_fs h r))) 0) ->
+  cp_mode_dot_h Op h r false x mode kd = Ok (h', o) ->
+  exists w' fs', cp_mode_dot Op (operand_w Op (deref h r)) (operand_fs (deref h r)) x mode kd = Ok (w', fs') /\
+     cpo_fs (read_obj h' o) = fs' /\ cpo_shape (read_obj h' o) = cp_shape fs' /\
+     cpo_w (read_obj h' o) = match ref_w h r with Some _ => w' | None => ones Op (cp_rank fs') end.
+Proof. exact @cp_mode_dot_h_inplace_value. Qed.
+Print Assumptions C04_cp_mode_dot_inplace_value_partial.
+
+(* an in-place update of one location reads back as an update of one slot when no other slot names that location *)
+Theorem C04_inplace_update_unique_slot : forall (B : Type) (d : B) (tbl : list B) v (ls : list nat) m,
+  m < length ls -> nth m ls 0 < length tbl ->
+  (forall j, j < length ls -> j <> m -> nth j ls 0 <> nth m ls 0) ->
+  map (fun l => nth l (set_nth (nth m ls 0) v tbl) d) ls = set_nth m v (map (fun l => nth l tbl d) ls).
+Proof. exact @map_set_nth_unique. Qed.
+Print Assumptions C04_inplace_update_unique_slot.
+
+(* non-vacuity: constructors accept / refuse; the same aliased operand with copy=True gives 49; hypotheses of the partial theorem hold on a
+   heap with distinct arrays, where the in-place contraction gives the right entry *)
+Example C04_round5_nonvacuous :
+  let P := [[0; 1]; [-1; 0]; [0; 0]]%Z in let L := [[0; 0; 1]; [1; 0; 0]; [0; 1; 0]; [0; 0; 0]]%Z in
+  let fs := [[[1; 2]]; [[1; 0]; [0; 1]]; [[3; 1]; [0; 2]]]%Z in
+  pf2_new Zops Z.eqb None fs [P] = Ok (mk_pf2obj [[3; 2]] 2 [1; 1]%Z fs [P]) /\
+  svd_decompress_api Zops Z.eqb (Pf2Tuple None fs [P]) [Some L]
+    = Ok (mk_pf2obj [[4; 2]] 2 [1; 1]%Z fs [[[0; 0]; [0; 1]; [-1; 0]; [0; 0]]%Z]) /\
+  svd_decompress_api Zops Z.eqb (Pf2Tuple None fs [P]) [Some [[0; 0; 1]; [2; 0; 0]; [0; 1; 0]]%Z] = Err /\
+  pf2_new Zops Z.eqb None fs [[[0; 1]; [1; 1]]%Z] = Err /\
+  tucker_mode_dot_api Zops (mk [2; 1] [1; 2]%Z) [[[1; 0]; [1; 1]]; [[2]; [3]]]%Z (OpVec [1; 1]%Z) (-2) true
+    = Ok (mk_tkobj [1; 2] [2; 1] (mk [2; 1] [1; 2]%Z) [[[2; 1]]; [[2]; [3]]]%Z) /\
+  tucker_new (mk [2] [1; 2]%Z) [[[1; 0]; [1; 1]]%Z] = Err /\
+  (exists h' o, cp_mode_dot_h Zops alias_heap (RTuple (Some 0) 0) true (OpVec [1; 2]%Z) 2 false = Ok (h', o) /\
+                cp_entry Zops (cpo_w (read_obj h' o)) (cpo_fs (read_obj h' o)) [0; 0] = 49%Z /\ o = 0 /\ owned h' o = [6; 3; 4]) /\
+  (let h := mk_heap [[[1; 1]]; [[1; 2]; [3; 4]]; [[1; 2]; [3; 4]]; [[1; 1]; [2; 5]]]%Z [[1; 2; 3]] [] in
+   exists h' o, cp_mode_dot_h Zops h (RTuple (Some 0) 0) false (OpVec [1; 2]%Z) 2 false = Ok (h', o) /\
+                cp_entry Zops (cpo_w (read_obj h' o)) (cpo_fs (read_obj h' o)) [0; 0] = 49%Z /\
+                arr h' 2 = [[5; 22]; [15; 44]]%Z /\ owned h' o = [0; 1; 2]).
+Proof.
+  cbv zeta. repeat (split; [vm_compute; reflexivity|]). split.
+  - do 2 eexists. split; [vm_compute; reflexivity|]. repeat split; vm_compute; reflexivity.
+  - do 2 eexists. split; [vm_compute; reflexivity|]. repeat split; vm_compute; reflexivity.
+Qed.
+
